@@ -98,6 +98,15 @@ PathBytes(p) ==
              \o Flat([i \in 1..Len(p.segs) |-> Flat([j \in 1..Len(p.segs[i].hops) |-> HopBytes(p.segs[i].hops[j])])])
     [] OTHER -> p.data
 
+(* growth (DESIGN.md 6.6): reversal of a one-hop path.  The model upgrades it to a standard path with   *)
+(* one segment (second hop first, construction-direction flag flipped, pointers 0); the view reverses  *)
+(* in place and stays a one-hop path.  Defined only once the second hop field has been filled in.      *)
+FlipC(flags) == IF flags % 2 = 1 THEN flags - 1 ELSE flags + 1
+OneHopReversible(p) == p.hops[2].in # 0
+OneHopUpgraded(p) == [k |-> "std", ci |-> 0, ch |-> 0,
+                      segs |-> <<[info |-> [p.info EXCEPT !.flags = FlipC(@)], hops |-> <<p.hops[2], p.hops[1]>>]>>]
+OneHopReversedInPlace(p) == [p EXCEPT !.info.flags = FlipC(@), !.hops = <<p.hops[2], p.hops[1]>>]
+
 PathSize(p) ==
   CASE p.k = "empty"  -> 0
     [] p.k = "onehop" -> 32
